@@ -59,9 +59,22 @@ def covering_pool(r, n):
             # dedupe keys
             d = {(a, bb, c): v for a, bb, c, v in e}
             pool.append([(a, bb, c, v) for (a, bb, c), v in d.items()])
+    for _ in range(max(2, n // 50)):
+        pool.append(gen_large_env(r))
     while len(pool) < n:
         pool.append(gen_env(r))
     return pool[:n]
+
+
+def gen_large_env(r):
+    """hundreds of entries over many variables, long names (below NAME_MAX with the longest suffix) and values around and beyond
+    common buffer sizes, many variables per scope directory"""
+    names = [b"V%d" % i for i in range(r.randint(20, 150))] + [b"L" * r.choice([100, 200, 240])]
+    big = [bytes([r.randrange(1, 256)]) * k for k in (4095, 4096, 4097, 8192, 65536, 70001)]
+    d = {}
+    for _ in range(r.randint(100, 250)):
+        d[(r.choice(SCOPES), r.choice(envmodel.BEHAVIOURS), r.choice(names))] = r.choice(big) if r.random() < 0.02 else r.choice(VALUES)
+    return [(s, b, nm, v) for (s, b, nm), v in d.items()]
 
 
 def make_bystanders(d):
@@ -271,9 +284,9 @@ def run(tier, seed, work):
         pairs += [(8000 + i, pool[i], pool[(i * 7 + 3) % len(pool)]) for i in range(len(pool))]
         nread = 3000
     else:
-        pool = covering_pool(r, 200)
+        pool = covering_pool(r, 300)
         pairs = [(i * len(pool) + j, pool[i], pool[j]) for i in range(len(pool)) for j in range(len(pool))]
-        nread = 30000
+        nread = 100000
     # derived pairs: the new env is the old one with whole scopes dropped (everything else byte-identical), and vice versa -
     # the situations in which a writer could believe "nothing changed here"
     base = len(pairs) + 100000
